@@ -127,6 +127,9 @@ func genC13(p *Plan, r *RNG) {
 			readers++
 		case w < 62:
 			o := Op{Actor: "srv", Kind: "srv_data", At: g, A: OpArgs{Peer: peer, Len: r.Range(9, 300)}}
+			if r.Chance(1, 8) {
+				o.A.Flags = []string{"stranger"} // the same indication, but not from the server
+			}
 			if r.Chance(1, 6) {
 				o.A.Content = r.Pick([]string{"stunlike", "stunvalid", "chanlike", "cookie0"})
 				o.A.Len = r.PickInt([]int{16, 20, 24, 100}) // (long enough to stay unique: the oracle tells payloads apart by their bytes)
